@@ -9,10 +9,10 @@ absent, and the reported reference count always equals successful acquisitions m
 
 Quantifier: all interleavings.  Here: every state `s` with `Reachable s`, i.e. reached from the
 empty pool by ANY finite sequence of lock regions (`Label`s) of ANY number of goroutines on ANY
-keys, with two explicit, decidable exclusions (`excluded`):
-  (a) a `Delete` by a caller that holds nothing (the documented client contract), and
-  (b) the `else` branch of `LoadOrStore` (taken only after the loaded entry's constructor
-      failed) — with it the property is FALSE on the unchanged code, see `Witness.lean`.
+keys, with ONE explicit, decidable exclusion (`excluded`): a `Delete` by a caller that holds
+nothing (the documented client contract).  (Before the fix round a second exclusion was needed —
+the `else` branch of `LoadOrStore` — and two clauses were false; `Witness.lean` keeps the old
+behaviour as `…_old_code_fails` theorems.)
 A caller "holds" entry `e` from the region that hands it `e`'s value to the first region of its
 `Delete` (`holders`).
 -/
@@ -139,19 +139,55 @@ theorem never_returns_destructed_lnRead {s s' : G} {e : Nat} (h : Reachable s)
     simp [updEnt]
   · cases hs
 
-/-- **… LoadOrStore, loaded path** (the non-excluded branch) -/
+/-- **… LoadOrStore, loaded path.** When the second region of `LoadOrStore` finds that the loaded
+    entry's constructor did not fail, it hands out a non-nil value of the entry that is in the map,
+    not destructed and not about to be, and becomes a holder. -/
 theorem never_returns_destructed_lsRead {s s' : G} {e v : Nat} (h : Reachable s)
-    (hs : gstep s (.lsRead e v) = some s') (hx : excluded s (.lsRead e v) = false) :
+    (hs : gstep s (.lsRead e v) = some s') (hx : (s.ent e).err = false) :
     (lsReadRet s e).isSome = true ∧ (s.ent e).destructed = 0 ∧ (s.ent e).del2 = 0 ∧ (s.ent e).del3 = 0
-      ∧ inPool s e = true := by
+      ∧ inPool s e = true ∧ (s'.ent e).holders = (s.ent e).holders + 1 := by
   simp only [gstep] at hs
-  simp only [excluded] at hx
   split at hs
   · rename_i hg
     have hE := (inv_reachable h).ent e hg.1
     obtain ⟨hm, hv, hd, h2, h3⟩ := ent_waiter_read hE (by omega) hg.2.2 hx
-    refine ⟨?_, hd, h2, h3, hm⟩
-    simp [lsReadRet, hx, hv]
+    rw [hx] at hs
+    simp only [Bool.false_eq_true, if_false] at hs
+    cases hs
+    refine ⟨?_, hd, h2, h3, hm, ?_⟩
+    · simp [lsReadRet, hv]
+    · simp [updEnt]
+  · cases hs
+
+/-- **mixed use is safe: LoadOrStore after a failed constructor.** When the loaded entry's
+    constructor failed, `LoadOrStore` hands out nothing and counts on nothing: the entry is no
+    longer in the map, gets no holder, no value and keeps its error; only the caller's increment
+    stays behind on it (`deadRefs`) — the call starts over.  (The old code adopted the orphaned
+    entry and returned (nil, true): `Witness.mixed_use_old_code_fails`.) -/
+theorem loadOrStore_after_failed_ctor_starts_over {s s' : G} {e v : Nat} (h : Reachable s)
+    (hs : gstep s (.lsRead e v) = some s') (hx : (s.ent e).err = true) :
+    inPool s e = false ∧ s'.pool = s.pool ∧ (s'.ent e).holders = 0 ∧ (s'.ent e).value = none
+      ∧ (s'.ent e).err = true ∧ (s'.ent e).lsWaiters + 1 = (s.ent e).lsWaiters := by
+  simp only [gstep] at hs
+  split at hs
+  · rename_i hg
+    have hE := (inv_reachable h).ent e hg.1
+    obtain ⟨hh, hv, _, _, _⟩ := ent_failed_facts hE hx
+    have hm : inPool s e = false := by
+      obtain ⟨_, h2, _, h4, _⟩ := hE
+      have := (h4 hx).2.2.2.2.2.2
+      cases hmm : inPool s e
+      · rfl
+      · rw [hmm] at this; rw [hg.2.2] at h2; simp at this h2; omega
+    first
+      | (rw [hx] at hs; simp only [if_true] at hs)
+      | skip
+    cases hs
+    refine ⟨hm, rfl, ?_, ?_, ?_, ?_⟩
+    · simp [updEnt, hh]
+    · simp [updEnt, hv]
+    · simp [updEnt, hx]
+    · simp [updEnt]; omega
   · cases hs
 
 /-- a `LoadOrNew` whose (second-region) read sees the constructor's error hands out no value -/
@@ -187,7 +223,7 @@ theorem failed_ctor_leaves_absent {s s' : G} {e : Nat} (h : Reachable s)
   split at hs
   · rename_i hg
     have hE := (inv_reachable h).ent e hg.1
-    obtain ⟨hm, herr, _, _⟩ := ent_failing_facts hE hg.2.1
+    obtain ⟨hm, herr, _, _⟩ := ent_failing_facts hE hg.2
     obtain ⟨hh, hv, hd, _, _⟩ := ent_failed_facts hE herr
     cases hs
     refine ⟨pool_of_inPool hm, by simp [updEnt, setPool], ?_, hh, hv, hd⟩
@@ -253,7 +289,7 @@ theorem delete_never_panics {s : G} (h : Reachable s) {k e : Nat} (he : e < s.ne
   rw [← hk]; exact pool_of_inPool hm
 
 /-- **the panic of `Delete` is unreachable — for every client.** After ANY schedule (no exclusion:
-    also callers that delete what they do not hold, also the `else` branch of LoadOrStore) the
+    also callers that delete what they do not hold) the
     entry `Delete(k)` finds has refs ≥ 1, so the thread-level model never produces the event `Dp`.
     ("Deleting too many times will panic" is not what the code does: it returns (false, nil).) -/
 theorem delete_panic_unreachable (ls : List Label) (s : G) (hr : runLabels G.init ls = some s)
@@ -261,16 +297,59 @@ theorem delete_panic_unreachable (ls : List Label) (s : G) (hr : runLabels G.ini
   have := (mapOk_run ls G.init s mapOk_init hr k e hp).2.2
   omega
 
-/-- `References`, second region (the atomic load, after the pool lock was released): if the entry
-    is still in the map the count is ≥ 1 and is the count of the key.  (Without that hypothesis the
-    clause fails on the unchanged code: `Witness.references_full_fails`.) -/
-theorem references_partial {s : G} (h : Reachable s) {e : Nat} (he : e < s.next)
-    (hm : inPool s e = true) :
-    1 ≤ refs2Ret s e ∧ refsNow s (s.ent e).key = some (refs2Ret s e) := by
-  have hi := inv_reachable h
-  obtain ⟨_, h2, _⟩ := ent_mapped_refs (hi.ent e he) hm
-  refine ⟨h2, ?_⟩
-  simp [refsNow, pool_of_inPool hm, refs2Ret]
+/-- **References is atomic.** `References(k)` is a single region under the pool read lock; what it
+    returns is `refsNow` of ONE state: `(n, true)` with `n ≥ 1` = holders + calls in flight of the
+    entry in the map, or `(0, false)` when nobody holds the key — never `(0, true)`.
+    (Old code: `Witness.references_old_code_fails`.) -/
+theorem references_never_zero_for_present_key {s : G} (h : Reachable s) (k : Nat) :
+    gstep s (.refs k) = some s ∧ refsNow s k ≠ some 0 := by
+  refine ⟨rfl, ?_⟩
+  have := references_report h k
+  intro h0
+  rw [h0] at this
+  obtain ⟨_, _, _, h1, _⟩ := this
+  omega
+
+/-! ### progress: no call waits for ever -/
+
+/-- **no deadlock.** No lock is held across a region boundary except the write lock of an entry
+    under construction, and the goroutine that holds it is never blocked.  In every reachable
+    state: the constructing / failing call of an entry can always take its next region; a call
+    waiting for an entry's lock (`waiters`, `lsWaiters`, `del2`) can take its next region unless
+    the entry is write-locked, and then exactly one constructing or failing call — which is
+    enabled — owns that lock; the destructor call is enabled; and the first region of every method
+    and `References` / `Range` are always enabled.  (Old `Range`:
+    `Witness.range_old_code_deadlock_configuration`.) -/
+theorem progress {s : G} (h : Reachable s) {e : Nat} (he : e < s.next) :
+    (0 < (s.ent e).ctor → (gstep s (.ctorOk e)).isSome = true ∧ (gstep s (.ctorErr e)).isSome = true)
+    ∧ (0 < (s.ent e).failing → (gstep s (.lnFailDel e)).isSome = true)
+    ∧ (0 < (s.ent e).del3 → (gstep s (.del3 e)).isSome = true)
+    ∧ ((s.ent e).wlocked = false →
+        (0 < (s.ent e).waiters → (gstep s (.lnRead e)).isSome = true)
+        ∧ (∀ v, 0 < (s.ent e).lsWaiters → (gstep s (.lsRead e v)).isSome = true)
+        ∧ (0 < (s.ent e).del2 → (gstep s (.del2 e)).isSome = true))
+    ∧ ((s.ent e).wlocked = true → (s.ent e).ctor + (s.ent e).failing = 1)
+    ∧ (∀ k, (gstep s (.lnLookup k)).isSome = true ∧ (gstep s (.lsLookup k)).isSome = true
+        ∧ (gstep s (.refs k)).isSome = true ∧ (gstep s .range).isSome = true
+        ∧ (0 < (s.ent e).holders → (gstep s (.del1 (s.ent e).key (some e))).isSome = true)) := by
+  have hE := (inv_reachable h).ent e he
+  refine ⟨?_, ?_, ?_, ?_, ?_, ?_⟩
+  · intro hc; simp [gstep, he, hc]
+  · intro hf; simp [gstep, he, hf]
+  · intro hd; simp [gstep, he, hd]
+  · intro hw
+    refine ⟨?_, ?_, ?_⟩
+    · intro hh; simp only [gstep, he, hh, hw, and_self, if_true]; split <;> rfl
+    · intro v hh; simp only [gstep, he, hh, hw, and_self, if_true]; split <;> rfl
+    · intro hh; simp only [gstep, he, hh, hw, and_self, if_true]; split <;> rfl
+  · intro hw
+    obtain ⟨_, h2, _⟩ := hE
+    rw [hw] at h2; simpa using h2
+  · intro k
+    refine ⟨?_, ?_, rfl, rfl, ?_⟩
+    · simp only [gstep]; split <;> rfl
+    · simp only [gstep]; split <;> rfl
+    · intro hh; simp [gstep, he, hh]
 
 /-! ### non-vacuity: concrete reachable states (kernel-evaluated) -/
 
@@ -342,9 +421,10 @@ theorem runSched_reachable (nk : Nat) (progs : List (List Op)) (sched : List Nat
   unfold runSched
   exact drain_reachable nk _ _ (foldl_tstep_reachable nk sched _ (fun _ => reachable_init))
 
--- non-vacuity: a 3-thread case whose run is clean, and the F12 case whose run is not
+-- non-vacuity: a 3-thread case whose run is clean, the former F12 case (now clean), and a contract-breaking one
 example : (runSched 1 [[.ln 0 true, .cdel 0], [.ln 0 true, .cdel 0], [.refs 0]] [0, 0, 1, 1, 2, 2, 0]).clean = true := by decide
-example : (runSched 1 [[.ln 0 false], [.ls 0, .cdel 0], [.ln 0 true]] [0, 1, 0, 0, 1]).clean = false := by decide
+example : (runSched 1 [[.ln 0 false], [.ls 0, .cdel 0], [.ln 0 true]] [0, 1, 0, 0, 1]).clean = true := by decide
+example : (runSched 1 [[.ln 0 true], [.del 0]] [0, 0, 1]).clean = false := by decide
 
 
 end CaddyModel.C04
